@@ -5,7 +5,7 @@ from __future__ import annotations
 import ast
 
 from ..core.cfg import CFG
-from ..core.repo import (AnalysisError, Repo, call_name, calls_in, definitions, dotted, is_const,
+from ..core.repo import (AnalysisError, Repo, call_name, calls_in, definitions, dotted, func_params, is_const,
                          kwarg, names_in, unparse, walk_no_nested_defs, enclosing_stmt)
 
 CFGMOD = "quantem.core.config"
@@ -188,6 +188,25 @@ def run(check, repo: Repo) -> None:
                              fail_detail=f"the key is canonicalised against `{mapping}` but used on {bad}: the other "
                                          f"'-'/'_' spelling of a nested key creates a duplicate entry")
     check.floor("canonical_name sites", n_can, 3)
+    # the rollback record addresses the entry by the SAME (canonical) key the value was stored under
+    can = [st for st in ast.walk(assign) if isinstance(st, ast.Assign) and isinstance(st.value, ast.Call) and call_name(st.value) == "canonical_name"
+           and isinstance(st.targets[0], ast.Name)]
+    if len(can) != 1:
+        raise AnalysisError("set._assign: canonical_name assignment not found")
+    ckey = can[0].targets[0].id
+    rec_paths = set()
+    for c in calls_in(assign):
+        if (call_name(c) or "") == "self._record.append" and c.args and isinstance(c.args[0], ast.Tuple) and len(c.args[0].elts) >= 2:
+            rec_paths.add(unparse(c.args[0].elts[1]))
+    if len(rec_paths) != 1:
+        raise AnalysisError(f"set._assign: recorded paths {sorted(rec_paths)} not understood")
+    pvar = next(iter(rec_paths))
+    ext = [d for d in definitions(assign, pvar) if isinstance(d, ast.AST) and isinstance(d, ast.BinOp) and isinstance(d.op, ast.Add)]
+    comps = [unparse(e) for d in ext for side in (d.left, d.right) if isinstance(side, ast.Tuple) for e in side.elts]
+    check.decide(bool(comps) and all(x == ckey for x in comps), "C19-R3", "set._assign: the rollback path is built from the canonical key the value is stored under",
+                 f"{pvar} += ({', '.join(comps)},)", mod.line(can[0]),
+                 fail_detail=f"the recorded path is extended with {comps} while the value is stored under `{ckey}` = canonical_name(…): with the other '-'/'_' spelling __exit__ "
+                             f"restores the old value under a new alias key and the temporary value stays — the context manager does not restore")
 
     # ---- R4 device path ---------------------------------------------------------------------
     _, ckv = repo.func(f"{CFGMOD}:check_key_val")
